@@ -215,7 +215,15 @@ pub fn draw_cuesheet(ch: &Choices) -> Option<Cuesheet> {
     }
     let total = 588 * (600 + ch.draw("meta.cue.len", 4000));
     let text = draw_cue_text(ch, total);
-    Cuesheet::parse(total, &text).ok()
+    let mut c = Cuesheet::parse(total, &text).ok()?;
+    // the lead-in is a public field of the CD-DA variant: any value can be handed to the writer
+    if let Cuesheet::CDDA { lead_in_samples, .. } = &mut c {
+        if ch.draw("meta.cue.leadin", 4) == 3 {
+            *lead_in_samples = *ch.pick("meta.cue.leadin.v", &[0u64, 1, 588, 88199, 88201, 1 << 40, u64::MAX]);
+            crate::monitor::probe("cue_cdda_lead_in_other_than_88200");
+        }
+    }
+    Some(c)
 }
 
 /// a list of optional blocks (no STREAMINFO), obeying the single-instance rules unless `break_rules`
